@@ -346,7 +346,10 @@ func c07Run(c batchCase) (out Outcome) {
 			ctxErr := errors.Is(r.Error, context.Canceled) || errors.Is(r.Error, context.DeadlineExceeded)
 			lookup := errors.Is(r.Error, gohbase.TableNotFound) || errors.Is(r.Error, gohbase.ErrCannotFindRegion)
 			closedErr := strings.Contains(r.Error.Error(), "client is closed")
-			if !ownLast && !ctxErr && !lookup && !closedErr && final != "fatal" {
+			// (a batch given up before this call was ever sent leaves it "not executed")
+			_, arrived := lastResult[op.Marker]
+			neverSent := r.Error == gohbase.NotExecutedError && !arrived
+			if !ownLast && !ctxErr && !lookup && !closedErr && !neverSent && final != "fatal" {
 				return viol("result-unexplained-error", "call %s (index %d): error %v is neither its own, nor a context or lookup error", op.Marker, i, r.Error)
 			}
 		default:
